@@ -36,6 +36,8 @@ Next ==
         \/ (Len(toks) = 1 /\ \E i \in AssignToks : toks' = Append(toks, i) /\ expectOperand' = TRUE)
         \* postfix: registered postfix, call, index; built-in ++ only right after an identifier
         \/ (toks' = Append(toks, K("DYN2", "DYN2")) /\ UNCHANGED expectOperand)
+        \* DYN1 is registered as prefix AND as postfix operator (like `!` with a factorial plugin)
+        \/ (toks' = Append(toks, K("DYN1", "DYN1")) /\ UNCHANGED expectOperand)
         \/ (Last.ty # "INCREMENT" /\ toks' = toks \o <<K("LPAREN", ""), K("RPAREN", "")>> /\ UNCHANGED expectOperand)
         \/ (Last.ty # "INCREMENT" /\ toks' = toks \o <<K("LBRACKET", ""), K("IDENT", "i"), K("RBRACKET", "")>> /\ UNCHANGED expectOperand)
         \/ (Last.ty = "IDENT" /\ toks' = Append(toks, K("INCREMENT", "++")) /\ UNCHANGED expectOperand)
@@ -58,11 +60,15 @@ CL == ("DYN0" :> L) @@ ("DYN3" :> L2)
 Lowest == (HasTy("DYN0") /\ L = 1) \/ (HasTy("DYN3") /\ L2 = 1)
 \* layout variant: a line break in front of every registered INFIX operator (an operator at the
 \* start of a line continues the expression - only ++ / -- are restricted productions)
-Laid(brk) == [j \in 1..Len(toks) |-> IF brk /\ toks[j].ty \in {"DYN0", "DYN3"} THEN [toks[j] EXCEPT !.nl = TRUE] ELSE toks[j]]
+\* ... and in front of every registered POSTFIX operator (a call-level suffix continues across a line
+\* break like `(`): a token in postfix position is one that follows an operand
+PostfixPos(j) == j > 1 /\ toks[j].ty \in {"DYN1", "DYN2"} /\ toks[j - 1].ty \in {"IDENT", "RPAREN", "RBRACKET", "DYN2", "INCREMENT"}
+                 /\ (toks[j].ty = "DYN1" => (toks[j - 1].ty # "DYN1"))
+Laid(brk) == [j \in 1..Len(toks) |-> IF brk /\ (toks[j].ty \in {"DYN0", "DYN3"} \/ PostfixPos(j)) THEN [toks[j] EXCEPT !.nl = TRUE] ELSE toks[j]]
 AllOf(brk) == Append(Laid(brk), [ty |-> "EOF", lit |-> "", nl |-> FALSE, ok |-> TRUE])
-PO(brk) == [DefaultP(AllOf(brk)) EXCEPT !.cprefix = {"DYN1"}, !.cinfix = CL, !.cpostfix = {"DYN2"}]
+PO(brk) == [DefaultP(AllOf(brk)) EXCEPT !.cprefix = {"DYN1"}, !.cinfix = CL, !.cpostfix = {"DYN2", "DYN1"}]
 
-Inv == Relevant => \A brk \in (IF HasTy("DYN0") \/ HasTy("DYN3") THEN BOOLEAN ELSE {FALSE}) :
+Inv == Relevant => \A brk \in (IF HasTy("DYN0") \/ HasTy("DYN3") \/ (\E j \in 1..Len(toks) : PostfixPos(j)) THEN BOOLEAN ELSE {FALSE}) :
          LET All == AllOf(brk)
              P   == PO(brk)
              r   == ParseProgram(P)
